@@ -33,13 +33,13 @@ def pregen(check):
 
 CFG = {
     "id": "C19",
-    "lean_modules": ["GeomV.C19.Proofs"],
+    "lean_modules": ["GeomV.C19.Heap", "GeomV.C19.Proofs"],
     "exe": "geomv_c19",
     "go_cmd": "c19",
     "stages": ["go:gen", "go:impl", "lean:judge"],
     "pregen": pregen,
-    "theorems": [T + n for n in ["bellmanFord_correct", "pickMin_spec", "astar_optimal", "consistent_zero", "heuristic_consistent",
-                                 "polyLen_ge_chord", "euclidR_tri", "C19_route", "C19_unreachable", "build_wf", "C19_built", "C19_history", "C19_gap_not_minimal", "C19_gap_fixed"]],
+    "theorems": [T + n for n in ["bellmanFord_correct", "pickMin_spec", "listQ_spec", "heapUp_spec", "heapDown_spec", "heapQ_spec", "astar_optimal", "consistent_zero", "heuristic_consistent",
+                                 "polyLen_ge_chord", "euclidR_tri", "C19_route", "C19_unreachable", "build_wf", "C19_built", "C19_built_gonum", "C19_history", "C19_gap_not_minimal", "C19_gap_fixed"]],
     "trusted_base": [
         "Lean 4.33.0 kernel; axioms of every theorem printed by #print axioms must be within {propext, Classical.choice, Quot.sound}",
         "model lean/GeomV/C19/Model.lean is tied to /repo/route/route.go and to gonum v0.9.3 graph/path.AStar by the correspondence run on every check "
